@@ -13,7 +13,7 @@
    json.dump writes (the command writes in place).  Definitions only. *)
 From Coq Require Import List NArith ZArith Bool.
 From RPFT Require Import Base.Sexp Base.PyStr Base.Result Base.Json Gen.Tables
-  Io.CliFlow Io.CliIndex Io.CliJson.
+  Io.CliLog Io.CliFlow Io.CliIndex Io.CliJson.
 Import ListNotations.
 
 Definition path := str.
@@ -60,3 +60,37 @@ Definition cli (fuel : nat) (wb : workbook) (dm : option (list str)) (out : path
     | Ok d => (0%N, fs_write f out (serialize (doc_json d)))
     end
   else (0%N, fs_write f out []).
+
+(* ---------------------------------------------------------------- the command under a given
+   invocation environment (Io/CliLog.v).  `None` = this file does not say what happens.
+
+   * a configuration under which the command never gets to the library call (the log file
+     cannot be opened, ...): it ends with the status the probe saw and touches nothing;
+   * otherwise a detected fault is a log record of the level of its site, or an uncaught
+     exception: the status is what the handlers of THIS configuration exit with (1 for an
+     exception); a site whose record no handler of the configuration turns into an exit is
+     not described (what the code does after it is not modelled);
+   * a workbook that compiles is written as under the default configuration, provided the
+     configuration ends the process at the same level as the default one (a stricter one may
+     stop at a warning the compile model knows nothing about). *)
+Definition exit_status_in (cfg : log_config) (c : cls) : option N :=
+  match assocN c15_site_levels (cls_code c) with
+  | Some lvl => log_at cfg lvl
+  | None => Some 1%N
+  end.
+
+Definition cli_in (cfg : log_config) (fuel : nat) (wb : workbook) (dm : option (list str)) (out : path) (f : fs)
+  : option (N * fs) :=
+  if started cfg then
+    if cli_shape_ok then
+      match compile fuel wb dm with
+      | Err c => match exit_status_in cfg c with
+                 | Some e => Some (e, f)
+                 | None => None
+                 end
+      | Ok d => if like_default cfg then Some (0%N, fs_write f out (serialize (doc_json d))) else None
+      end
+    else None
+  else if (N.eqb (lc_start cfg) 1 || N.eqb (lc_start cfg) 2)%bool
+       then Some (snd (lc_observed cfg), f)
+       else None.
